@@ -30,6 +30,7 @@ type Facts struct {
 	Strs   map[string][]string `json:"strs"`    // name lists
 	Miss   []string            `json:"missing"` // anchors not found
 	MissT  map[string]string   `json:"missing_types,omitempty"` // Lean type of a missing fact when not Nat
+	Prov   *provenanceOut      `json:"provenance,omitempty"`
 }
 
 var facts = Facts{Nat: map[string]int64{}, Bytes: map[string][]int64{}, Tables: map[string][][2]any{}, Bools: map[string]bool{}, Strs: map[string][]string{}, MissT: map[string]string{}}
@@ -230,6 +231,9 @@ func (p *Pkg) factVarBytes(name, ident string) {
 	miss(name)
 }
 
+var loadedInitial []*packages.Package
+var loadedFset *token.FileSet
+
 func load(dir string, pats ...string) map[string]*Pkg {
 	cfg := &packages.Config{
 		Mode: packages.NeedName | packages.NeedFiles | packages.NeedSyntax | packages.NeedTypes | packages.NeedTypesInfo | packages.NeedImports | packages.NeedDeps,
@@ -240,6 +244,10 @@ func load(dir string, pats ...string) map[string]*Pkg {
 	if err != nil {
 		fmt.Fprintln(os.Stderr, "load:", err)
 		os.Exit(2)
+	}
+	loadedInitial = pkgs
+	if len(pkgs) > 0 {
+		loadedFset = pkgs[0].Fset
 	}
 	out := map[string]*Pkg{}
 	for _, p := range pkgs {
@@ -270,12 +278,14 @@ func main() {
 			outJSON = os.Args[i]
 		}
 	}
-	pkgs := load(repo, "./dhcpv4", "./dhcpv6", "./rfc1035label", "./iana", "./dhcpv4/nclient4", "./dhcpv6/nclient6", "./dhcpv4/server4", "./dhcpv6/server6")
+	pkgs := load(repo, "./dhcpv4", "./dhcpv6", "./rfc1035label", "./iana", "./dhcpv4/nclient4", "./dhcpv6/nclient6", "./dhcpv4/server4", "./dhcpv6/server6", uioPath)
 	extractV4(pkgs[mod+"/dhcpv4"])
 	extractMore(pkgs)
 	for _, f := range extraExtractors {
 		f(pkgs)
 	}
+	extractProvenance(loadedInitial, loadedFset)
+	facts.Prov = provOut
 
 	js, _ := json.MarshalIndent(facts, "", " ")
 	if outJSON != "" {
@@ -364,6 +374,34 @@ func renderLean() string {
 			parts[i] = fmt.Sprintf("%q", v)
 		}
 		fmt.Fprintf(&b, "def %s : Option (List String) := some [%s]\n", k, strings.Join(parts, ", "))
+	}
+	keys = keys[:0]
+	for k := range strBoolTables {
+		keys = append(keys, k)
+	}
+	sort.Strings(keys)
+	for _, k := range keys {
+		parts := make([]string, len(strBoolTables[k]))
+		for i, e := range strBoolTables[k] {
+			parts[i] = fmt.Sprintf("(%q, %v)", e[0], e[1])
+		}
+		fmt.Fprintf(&b, "def %s : Option (List (String × Bool)) := some [\n  %s]\n", k, strings.Join(parts, ",\n  "))
+	}
+	keys = keys[:0]
+	for k := range strLists {
+		keys = append(keys, k)
+	}
+	sort.Strings(keys)
+	for _, k := range keys {
+		parts := make([]string, len(strLists[k]))
+		for i, e := range strLists[k] {
+			parts[i] = fmt.Sprintf("%q", e)
+		}
+		fmt.Fprintf(&b, "def %s : Option (List String) := some [%s]\n", k, strings.Join(parts, ", "))
+	}
+	sort.Strings(missStrBool)
+	for _, k := range missStrBool {
+		fmt.Fprintf(&b, "def %s : Option (List (String × Bool)) := none -- ANALYSIS FAILED\n", k)
 	}
 	sort.Strings(facts.Miss)
 	for _, k := range facts.Miss {
